@@ -1,12 +1,14 @@
 package harness
 
 import (
-	"sync/atomic"
 	"context"
+	"errors"
 	"fmt"
 	"path/filepath"
 	"sort"
 	"strings"
+	"sync"
+	"sync/atomic"
 	"testing"
 	"time"
 
@@ -133,6 +135,78 @@ type handle struct {
 	close func()
 	// remote handles write back only version/owner/updated
 	remote bool
+	faults *faultStore
+}
+
+// faultStore is a BackingStore that persists nothing and fails the next write when armed.
+type faultStore struct {
+	mu    sync.Mutex
+	armed bool
+	fired bool
+}
+
+func (f *faultStore) arm() {
+	f.mu.Lock()
+	f.armed, f.fired = true, false
+	f.mu.Unlock()
+}
+
+// disarm reports whether the armed fault was hit.
+func (f *faultStore) disarm() bool {
+	f.mu.Lock()
+	defer f.mu.Unlock()
+
+	f.armed = false
+
+	return f.fired
+}
+
+func (f *faultStore) hit() error {
+	f.mu.Lock()
+	defer f.mu.Unlock()
+
+	if f.armed {
+		f.armed, f.fired = false, true
+
+		return errors.New("injected backing store failure")
+	}
+
+	return nil
+}
+
+func (f *faultStore) Put(context.Context, resource.Type, resource.Resource) error    { return f.hit() }
+func (f *faultStore) Destroy(context.Context, resource.Type, resource.Pointer) error { return f.hit() }
+func (f *faultStore) Load(context.Context, inmem.LoadHandler) error                  { return nil }
+
+func raceBuilder() namespaced.StateBuilder {
+	var (
+		mu      sync.Mutex
+		waiting = map[string]chan struct{}{}
+	)
+
+	return func(ns resource.Namespace) state.CoreState {
+		mu.Lock()
+
+		if ch, ok := waiting[ns]; ok {
+			delete(waiting, ns)
+			close(ch)
+			mu.Unlock()
+		} else {
+			ch := make(chan struct{})
+			waiting[ns] = ch
+			mu.Unlock()
+
+			select {
+			case <-ch:
+			case <-time.After(time.Millisecond):
+				mu.Lock()
+				delete(waiting, ns)
+				mu.Unlock()
+			}
+		}
+
+		return inmem.Build(ns)
+	}
 }
 
 func boltMarshaler() store.Marshaler { return store.ProtobufMarshaler{} }
@@ -169,6 +243,16 @@ func makeHandles(t *testing.T, dir string, which []string) []handle {
 		case "bbolt":
 			st, bs := newBoltState(t, filepath.Join(dir, fmt.Sprintf("db-%d.bolt", dbCounter.Add(1))), boltMarshaler())
 			hs = append(hs, handle{name: w, st: st, close: func() { bs.Close() }}) //nolint:errcheck
+		case "nsrace":
+			// first accesses to a namespace rendezvous inside the builder, so that concurrent first users of a
+			// namespace really overlap in namespaced.getNamespace
+			hs = append(hs, handle{name: w, st: namespaced.NewState(raceBuilder()), close: func() {}})
+		case "faulty":
+			fs := &faultStore{}
+			st := namespaced.NewState(func(ns resource.Namespace) state.CoreState {
+				return inmem.NewStateWithOptions(inmem.WithBackingStore(fs))(ns)
+			})
+			hs = append(hs, handle{name: w, st: st, close: func() {}, faults: fs})
 		case "grpc":
 			ad, _ := newRemote(namespaced.NewState(inmem.Build))
 			hs = append(hs, handle{name: w, st: ad, close: func() {}, remote: true})
